@@ -13,6 +13,7 @@
 #define NAKEN_ASM_VAR_H
 
 #include <stdint.h>
+#include <stdlib.h>
 #include <assert.h>
 
 enum
@@ -80,7 +81,9 @@ public:
 
   void set_int(const char *value)
   {
-    value_int = atoll(value);
+    // strtoull() also takes a leading '-' and wraps to 64 bits instead of
+    // saturating at INT64_MAX the way atoll() does.
+    value_int = (int64_t)strtoull(value, NULL, 10);
     type = VAR_INT;
   }
 
